@@ -983,10 +983,27 @@ async fn run_transfer(sh: &Shared, backend: Backend, path: &[Op], wd: &Path) -> 
                 check_server(&server, &account_id, op.kind(), sfx, &expected, &mut known_server, &mut fails, &mut out.cnt).await;
             }
             // second device: sync (merges the logs, queues downloads)
-            let sr = dev2.sync().await;
-            out.cnt.syncs += 1;
-            if let Some(e) = sr.first_error() {
-                *out.cnt.op_errors.entry(format!("device2 sync after {}: {}", op.kind(), e.to_string().chars().take(80).collect::<String>())).or_default() += 1;
+            // a sync that reports an error is repeated; a device whose sync
+            // keeps failing is not judged (the property speaks about synced
+            // devices), the failure is counted in the evidence
+            let mut dev2_synced = false;
+            for _attempt in 0..3 {
+                let sr = dev2.sync().await;
+                out.cnt.syncs += 1;
+                match sr.first_error() {
+                    None => {
+                        dev2_synced = true;
+                        break;
+                    }
+                    Some(e) => {
+                        *out.cnt.op_errors.entry(format!("device2 sync after {}: {}", op.kind(), e.to_string().chars().take(80).collect::<String>())).or_default() += 1;
+                        tokio::time::sleep(Duration::from_millis(500)).await;
+                    }
+                }
+            }
+            if !dev2_synced {
+                *out.cnt.op_errors.entry(format!("device2 not judged after {}: its sync failed 3 times", op.kind())).or_default() += 1;
+                continue;
             }
             if !settle(&dev2).await {
                 fails.push(format!("transfer:device2_transfers_do_not_settle:after_{}", op.kind()), format!("the transfer queue of the second device is still busy {:?} after its sync", SETTLE_HORIZON), json!({}));
@@ -1170,10 +1187,24 @@ async fn run_transfer_lazy(sh: &Shared, backend: Backend, path: &[Op], wd: &Path
         }
         // only now the second device syncs: one merge of the whole history
         let before = fails.0.len();
-        let sr = dev2.sync().await;
-        out.cnt.syncs += 1;
-        if let Some(e) = sr.first_error() {
-            *out.cnt.op_errors.entry(format!("device2 late sync after {}: {}", last, e.to_string().chars().take(80).collect::<String>())).or_default() += 1;
+        let mut dev2_synced = false;
+        for _attempt in 0..3 {
+            let sr = dev2.sync().await;
+            out.cnt.syncs += 1;
+            match sr.first_error() {
+                None => {
+                    dev2_synced = true;
+                    break;
+                }
+                Some(e) => {
+                    *out.cnt.op_errors.entry(format!("device2 late sync after {}: {}", last, e.to_string().chars().take(80).collect::<String>())).or_default() += 1;
+                    tokio::time::sleep(Duration::from_millis(500)).await;
+                }
+            }
+        }
+        if !dev2_synced {
+            *out.cnt.op_errors.entry(format!("device2 not judged after {}: its sync failed 3 times", last)).or_default() += 1;
+            m.known = false;
         }
         if !settle(&dev2).await {
             fails.push(format!("transfer:device2_transfers_do_not_settle:after_{}:{}", last, sfx), format!("the transfer queue of the second device is still busy {:?} after its sync", SETTLE_HORIZON), json!({}));
